@@ -106,9 +106,58 @@ func c04Run(c *core.Ctx) {
 			}
 		}
 	}
+	// multi-line regions: every place where line terminators are part of one token (strings, heredoc and nowdoc bodies,
+	// comments, inline HTML, the data behind __halt_compiler();) filled with every sequence of <= 3 (thorough 4) line
+	// terminators out of LF, CRLF and a lone CR, with and without a terminator at either end; a token follows on a later line
+	maxT := 3
+	if c.Thorough() {
+		maxT = 4
+	}
+	for _, tpl := range c04Regions {
+		for _, r := range c04RegionTexts(maxT) {
+			for _, v := range []*version.Version{drive.V74, drive.V72, drive.V56} {
+				if !c.Next() {
+					continue
+				}
+				c.Stat("multi_line_regions", 1)
+				c04One(c, mkCase(strings.Replace(tpl, "R", r, 1), v, "multi-line region with a mix of line terminators"))
+			}
+		}
+	}
 	if c04Bytes != nil {
 		c04Bytes(c, c04One)
 	}
+}
+
+// R stands for the region
+var c04Regions = []string{
+	"<?php $a = 'R'; $b;", "<?php $a = \"R\"; $b;", "<?php $a = \"x $v R {$w} R\"; $b;", "<?php $a = `R`; $b;",
+	"<?php $a = <<<A\nR\nA;\n$b;", "<?php $a = <<<'A'\nR\nA;\n$b;", "<?php $a = <<<A\n$v R\nA;\n$b;",
+	"<?php /*R*/ $b;", "<?php /** R*/ $b;", "<?php $a /*R*/ ; $b;",
+	"R<?php $b;", "<?php $a; ?>R<?php $b;", "<?php $a; ?>R", "<?= $a ?>R<?= $b ?>R",
+	"<?php __halt_compiler();R", "<?php $b;\n__halt_compiler();R", "<?php __halt_compiler() ?>R",
+}
+
+func c04RegionTexts(maxT int) []string {
+	terms := []string{"\n", "\r\n", "\r"}
+	var out []string
+	var rec func(text string, k int)
+	rec = func(text string, k int) {
+		if k > 0 {
+			out = append(out, text, text+"z")
+		}
+		if k == maxT {
+			return
+		}
+		for _, t := range terms {
+			rec(text+string(rune('p'+k))+t, k+1)
+			if k == 0 {
+				rec(t, k+1) // the region starts with a terminator
+			}
+		}
+	}
+	rec("", 0)
+	return out
 }
 
 func init() {
